@@ -746,7 +746,8 @@ async def run_steps(W: World, steps: list[dict[str, Any]], rng: random.Random | 
             args = tuple(W.log_arg(a) for a in step["args"])
             kw_log: dict[str, Any] = {}
             if step.get("exc"):
-                W.log_excs[step["id"]] = ValueError(f"log-exc-{step['id']}")
+                # every third logged exception has a truth value of its own (an - empty - collection of problems): still an exception to log
+                W.log_excs[step["id"]] = (FalsyError if step["id"] % 3 == 0 else ValueError)(f"log-exc-{step['id']}")
                 kw_log["exception"] = W.log_excs[step["id"]]
             W.event("log", step["id"])
             try:
@@ -772,6 +773,13 @@ async def run_steps(W: World, steps: list[dict[str, Any]], rng: random.Random | 
                 W.event("record-raised", step["id"], repr(exc))
         else:
             raise ValueError(f"unknown step {op}")
+
+
+class FalsyError(ValueError):
+    """an exception with a length (of zero): its truth value is False"""
+
+    def __len__(self) -> int:
+        return 0
 
 
 class Unprintable(Exception):
